@@ -49,6 +49,7 @@ class Gen:
     def __init__(self, rng, atlas):
         self.r = rng
         self.atlas = atlas
+        self.cited = []     # party names of full citations written so far
         self.full = [g for g in atlas if g["form"] == "full" and g["x"]]
         self.short = [g for g in atlas if g["form"] == "short" and g["x"]]
         self.examples = [g for g in atlas if g["form"] == "example" and g["x"]]
@@ -127,9 +128,15 @@ class Gen:
             return s
         s = core
         if r.random() < 0.6:
-            s = f"{self.name()} v. {self.name()}, {s}"
+            a, b = self.name(), self.name()
+            if r.random() < 0.1:
+                b = a           # "Smith v. Smith"
+            self.cited.extend([a, b])
+            s = f"{a} v. {b}, {s}"
         elif r.random() < 0.2:
-            s = f"In re {self.name()}, {s}"
+            a = self.name()
+            self.cited.append(a)
+            s = f"In re {a}, {s}"
         if r.random() < 0.3 and self.full:
             s += f", {self.core(self.pick(self.full))}"
         if r.random() < 0.4:
@@ -141,11 +148,18 @@ class Gen:
             s += f" ({self.pick(PARENS)})"
         return s
 
+    def known_name(self):
+        if self.cited and self.r.random() < 0.7:
+            return self.pick(self.cited)
+        return self.name()
+
     def reference(self):
         r = self.r
         x = r.random()
-        if x < 0.35:
-            return f"{self.name()}, supra, at {self.pin()}"
+        if x < 0.25:
+            return f"{self.known_name()}, supra, at {self.pin()}"
+        if x < 0.40:
+            return f"{self.known_name()} at {self.pick(['3', '17', '200'])}"
         if x < 0.7:
             return f"Id. at {self.pin()}"
         if x < 0.8:
@@ -160,6 +174,7 @@ class Gen:
         multi-byte characters sprinkled at citation boundaries with mb_rate."""
         r = self.r
         parts = []
+        self.cited = []
         if r.random() < 0.7:
             parts.append(self.words(r.randrange(1, 6)).capitalize() + " ")
         for i in range(n_items):
@@ -189,7 +204,8 @@ class Gen:
         for w in text.split(" "):
             bare = w.strip(",.;()")
             if bare in NAMES and r.random() < 0.5:
-                w = w.replace(bare, f"<em>{bare}</em>")
+                tag = "em" if r.random() < 0.7 else "i"
+                w = w.replace(bare, f"<{tag}>{bare}</{tag}>")
             out.append(w)
         body = " ".join(out).replace("\n\n", "</p><p>")
         return f"<div><p>{body}</p></div>"
